@@ -174,6 +174,14 @@ def main(tier, only=None):
                 for bs in (1024, 4096):
                     if bs == 4096 and s < 600: continue
                     jobs.append(('ss2/nb%d%s/b%d/%dk' % (nb, ro, bs, s * (bs // 1024)), ['-t', 'ext4', '-O', '^has_journal,sparse_super2' + ro, '-E', 'num_backup_sb=%d' % nb, '-b', str(bs), '-g', str(256 * (bs // 1024)), '-N', '64'], s * (bs // 1024), bs, False))
+    # (3c) a device that still holds old data and is not discarded (every byte 0xEE before mke2fs runs): whatever mke2fs leaves unwritten is garbage, so every structure
+    # that e2fsck or the kernel will read has to be written explicitly, with and without lazy inode-table initialisation
+    for name, o in FS:
+        for lazy in (0, 1):
+            for bs, isz in ((1024, 128), (1024, 256), (4096, 256)) if not quick else ((1024, 256), (4096, 256)):
+                if name == 'hurd' and isz != 128: continue
+                for s in ((3000, 9000) if quick else (1500, 3000, 9000, 20000)):
+                    jobs.append(('dirty/%s/lazy%d/b%d/I%d/%dk' % (name, lazy, bs, isz, s), o + ['-b', str(bs), '-I', str(isz), '-E', 'nodiscard,lazy_itable_init=%d,lazy_journal_init=%d' % (lazy, lazy)] + (['-C', str(bs * 4)] if name == 'bigalloc' and bs != 1024 else []), s, bs, True))
     # (4) pairwise feature interaction: every pair of feature toggles on top of ext4 (each feature alone is in (3)/(1); code that serves one feature often forgets another)
     TOG = ['bigalloc', 'orphan_file', '^has_journal', 'quota', 'project', 'inline_data', 'meta_bg', '^resize_inode', '64bit', 'metadata_csum', '^metadata_csum', 'sparse_super2', 'ea_inode', '^flex_bg',
            '^extent', 'uninit_bg', 'encrypt', 'casefold', 'mmp', 'large_dir', '^huge_file', '^dir_index', 'fast_commit', 'stable_inodes', 'verity', '^sparse_super', '^ext_attr', 'metadata_csum_seed']
